@@ -284,6 +284,22 @@ func (e *Eng) actPARPush() {
 	if badAuth {
 		auth.BasicPass = "not-the-secret"
 	}
+	// the caller may authenticate as one client and name another in the body: the request_uri, if one is handed out,
+	// belongs to the client that authenticated
+	if !badAuth && !pushCarriesRequestURI && rapid.IntRange(0, 9).Draw(t, "pushNamesOtherClient") == 0 {
+		named := otherClient(t, []string{"A", "B"}, client, "namedInBody")
+		form.Set("client_id", named)
+		res := e.w.PAR(form, auth)
+		e.step("parPush:names-other-client")
+		e.label("par-push-names-other-client")
+		if res.RequestURI != "" {
+			ar := e.w.Authorize(url.Values{"client_id": {named}, "request_uri": {res.RequestURI}}, h.Consent{Session: e.w.Sess("user-x")})
+			if ar.Code != "" {
+				e.viol("C17/push-bound-to-client-named-in-body", "client %s authenticated at the push endpoint and named client %s in the body: the request_uri started an authorization for %s", client, named, named)
+			}
+		}
+		return
+	}
 	res := e.w.PAR(form, auth)
 	if pushCarriesRequestURI || badAuth {
 		e.step("parPush:invalid")
